@@ -57,7 +57,10 @@ CFG = {
                 knobs=[(2, Knobs(envelope="asap", p_eff=0.6, sub_slot=0.8, p_team=0.35, p_alt=0.25)),
                        (1, Knobs(envelope="alap", p_eff=0.6, sub_slot=0.8, p_team=0.3, p_alt=0.2)),
                        (1, Knobs(envelope="asap", p_eff=1.0, eff=["0.7"], sub_slot=0.8, p_team=0.7, p_alt=0.0, p_leave=0.5, p_limits=0.3, max_res=3)),
-                       (1, Knobs(envelope="alap", p_eff=0.0, sub_slot=0.8, p_team=0.7, p_alt=0.0, p_leave=0.5, p_tasklimits=0.3, max_res=3))],
+                       (1, Knobs(envelope="alap", p_eff=0.0, sub_slot=0.8, p_team=0.7, p_alt=0.0, p_leave=0.5, p_tasklimits=0.3, max_res=3)),
+                       # alternatives under contention, walks that cross nights and leaves: the one-time choice of a candidate
+                       (1, Knobs(envelope="alap", p_alt=0.7, p_team=0.0, big_effort=0.5, p_leave=0.5, max_res=3, max_tasks=6)),
+                       (1, Knobs(envelope="asap", p_alt=0.7, p_team=0.0, big_effort=0.5, p_leave=0.5, p_tasklimits=0.3, max_res=3, max_tasks=6))],
                 nontrivial=any_booking,
                 rule="ASAP and ALAP envelope projects with efficiencies, sub-slot efforts, teams (two streams with one common efficiency, "
                      "the hypothesis of C03.team_effort_exact), alternatives; oracle: booked x efficiency "
